@@ -24,6 +24,8 @@ Alphabet
   In the multi-region search every event carries a trailing region index r: the session has 2 (thorough 3) regions, each with
   its own EventQueueGet cap, circuit and viewer-side ack; polls / injections / teardowns of different regions interleave and
   a response of any region may announce a further region (EstablishAgentCommunication -> a new ProxiedRegion is built).
+  The two-sessions search has two sessions behind the proxy whose regions share one circuit address (two avatars in the same
+  simulator); the queue index r then runs over (session, region) pairs and the oracle is per queue.
   Region announcements also include a known *handle* re-announced at a new address (region restarted on another simhost)
   and a known address announced with a new handle.
 
@@ -232,17 +234,22 @@ class Model:
 
 
 class World:
-    def __init__(self, n_regions: int = 1):
+    def __init__(self, n_regions: int = 1, n_sessions: int = 1):
         self.addon = SwallowAddon()
-        self.env = Env(n_sessions=1, n_regions=n_regions, addons=[self.addon])
+        self.env = Env(n_sessions=n_sessions, n_regions=n_regions, addons=[self.addon])
         self.session = self.env.sessions[0]
-        self.eq_regions = list(self.session.regions[:n_regions])     # the regions whose event queues the viewer polls
-        self.eq_urls = [cap_url(0, i, "EventQueueGet") for i in range(n_regions)]
+        # the event queues the viewers poll: every (session, region); sessions share the regions' circuit addresses
+        # (two avatars in the same simulators), so cap data must be re-attached by session *and* address
+        self.eq_regions, self.eq_urls = [], []
+        for si, sess in enumerate(self.env.sessions):
+            for ri in range(n_regions):
+                self.eq_regions.append(sess.regions[ri])
+                self.eq_urls.append(cap_url(si, ri, "EventQueueGet"))
         for region, url in zip(self.eq_regions, self.eq_urls):
             region.update_caps({"EventQueueGet": url})
         self.region = self.eq_regions[0]
         self.m = Model(n_regions)
-        self.rm = [RegionModel() for _ in range(n_regions)]
+        self.rm = [RegionModel() for _ in self.eq_regions]
         self.violations: List[Dict[str, Any]] = []
         self.last_obs: Any = None
         self.flags: set = set()
@@ -277,11 +284,12 @@ class Harness:
                  inject: Tuple[str, ...] = ("ev", "msg"), teardown: bool = True, rep: bool = True, lost: bool = True,
                  label: str = "", n_regions: int = 1, swallows: Tuple[str, ...] = ("none", "first", "all"),
                  midtd: Optional[bool] = None, midtd_sw: Tuple[str, ...] = ("all",),
-                 midtd_sims: Optional[Tuple[str, ...]] = None, regrant: bool = False):
+                 midtd_sims: Optional[Tuple[str, ...]] = None, regrant: bool = False, n_sessions: int = 1):
         self.sims, self.statuses, self.undef = tuple(sims), tuple(statuses), undef
         self.inject, self.teardown, self.rep, self.lost = tuple(inject), teardown, rep, lost
         self.label, self.n_regions, self.swallows = label, n_regions, tuple(swallows)
         self.midtd = teardown if midtd is None else midtd      # teardown between the two legs of one poll ...
+        self.n_sessions = n_sessions
         self.regrant = regrant      # the viewer re-fetches the Seed cap and is granted a new EventQueueGet URL (once per region)
         self.midtd_sw = tuple(midtd_sw)                        # ... enumerated for these swallow modes
         self.midtd_sims = tuple(midtd_sims) if midtd_sims is not None else self.sims      # ... and these answers
@@ -289,11 +297,11 @@ class Harness:
     def config(self) -> Dict[str, Any]:
         return {"sims": list(self.sims), "statuses": list(self.statuses), "undef": self.undef, "inject": list(self.inject),
                 "teardown": self.teardown, "rep": self.rep, "lost": self.lost, "n_regions": self.n_regions,
-                "swallows": list(self.swallows), "midtd": self.midtd, "midtd_sw": list(self.midtd_sw), "midtd_sims": list(self.midtd_sims), "regrant": self.regrant}
+                "swallows": list(self.swallows), "midtd": self.midtd, "midtd_sw": list(self.midtd_sw), "midtd_sims": list(self.midtd_sims), "regrant": self.regrant, "n_sessions": self.n_sessions}
 
     # ------------------------------------------------------------------------------------------ explorer API
     def fresh(self) -> World:
-        return World(self.n_regions)
+        return World(self.n_regions, self.n_sessions)
 
     def deviation(self, ev) -> int:
         if ev[0] == "teardown":
@@ -304,9 +312,10 @@ class Harness:
 
     def enabled(self, w: World):
         evs: List[tuple] = []
-        for r in range(self.n_regions):
+        n_queues = self.n_regions * self.n_sessions
+        for r in range(n_queues):
             m = w.rm[r]
-            suffix = (r,) if self.n_regions > 1 else ()
+            suffix = (r,) if n_queues > 1 else ()
             ackmodes = ["cur"]
             if self.rep and m.prev is not None and m.prev["ack"] != m.ack:
                 ackmodes.append("rep")
@@ -413,7 +422,7 @@ class Harness:
     def _teardown(self, w: World, r: int):
         m, region = w.rm[r], w.eq_regions[r]
         region.mark_dead()
-        w.session.open_circuit(CLIENT_ADDR, region.circuit_addr, w.env.transport)
+        region.session().open_circuit(CLIENT_ADDR, region.circuit_addr, w.env.transport)
         m.optional += m.pending
         m.pending = []
         m.ack, m.prev, m.inj_since_poll = None, None, 0
@@ -499,7 +508,7 @@ class Harness:
         # ---- regions
         self._check_regions(w)
         if delivery == "tdok" and not faked:
-            w.session.open_circuit(CLIENT_ADDR, w.eq_regions[r].circuit_addr, w.env.transport)     # the viewer comes back later
+            w.eq_regions[r].session().open_circuit(CLIENT_ADDR, w.eq_regions[r].circuit_addr, w.env.transport)  # viewer comes back
         # ---- viewer
         if delivery in ("ok", "tdok"):
             if status == 200 and isinstance(act_body, dict) and "id" in act_body:
@@ -667,6 +676,7 @@ def searches(tier: str):
             (Harness(("t", "eac", "es", "tf", "cr", "tf0", "es_mv", "tf_mv", "es_h3", "eac+es", "tf+tf"), statuses=(), undef=False,
                      inject=(), teardown=False, midtd=True, midtd_sw=("none",), midtd_sims=ANN1, label="regions "), 3, 2),
             (Harness(("p", "eac"), n_regions=2, label="multi-region ", **multi), 4, 1),
+            (Harness(("p",), n_regions=1, n_sessions=2, label="two-sessions ", **dict(multi, regrant=False)), 4, 1),
         ]
     return [
         (Harness(("p", "t", "pt"), midtd_sims=("p",), label="delivery "), 6, 3),
@@ -674,6 +684,7 @@ def searches(tier: str):
                  undef=False, inject=(), teardown=False, midtd=True, midtd_sw=("none",), midtd_sims=ANN1, label="regions "), 4, 3),
         (Harness(("p", "eac"), n_regions=2, label="multi-region ", **multi), 5, 2),
         (Harness(("p", "eac"), n_regions=3, label="multi-region(3) ", **multi), 4, 1),
+        (Harness(("p",), n_regions=1, n_sessions=2, label="two-sessions ", **dict(multi, regrant=False)), 5, 2),
     ]
 
 
@@ -718,6 +729,6 @@ def replay(witness):
                 lost=cfg.get("lost", True), n_regions=int(cfg.get("n_regions", 1)), midtd=cfg.get("midtd"),
                 midtd_sw=tuple(cfg.get("midtd_sw", ("all",))),
                 midtd_sims=tuple(cfg["midtd_sims"]) if cfg.get("midtd_sims") is not None else None,
-                regrant=bool(cfg.get("regrant", False)),
+                regrant=bool(cfg.get("regrant", False)), n_sessions=int(cfg.get("n_sessions", 1)),
                 swallows=tuple(cfg.get("swallows", ("none", "first", "all"))))
     return explore.replay_history(h, witness["history"])
